@@ -88,9 +88,9 @@ Properties/C04.vos Properties/C04.vok Properties/C04.required_vos: Properties/C0
 Properties/C05.vo Properties/C05.glob Properties/C05.v.beautified Properties/C05.required_vo: Properties/C05.v Runtime/Children.vo Proofs/RuntimeProofs.vo
 Properties/C05.vio: Properties/C05.v Runtime/Children.vio Proofs/RuntimeProofs.vio
 Properties/C05.vos Properties/C05.vok Properties/C05.required_vos: Properties/C05.v Runtime/Children.vos Proofs/RuntimeProofs.vos
-Properties/C12.vo Properties/C12.glob Properties/C12.v.beautified Properties/C12.required_vo: Properties/C12.v Compiler/Compile.vo
-Properties/C12.vio: Properties/C12.v Compiler/Compile.vio
-Properties/C12.vos Properties/C12.vok Properties/C12.required_vos: Properties/C12.v Compiler/Compile.vos
+Properties/C12.vo Properties/C12.glob Properties/C12.v.beautified Properties/C12.required_vo: Properties/C12.v Compiler/Compile.vo Runtime/Render.vo Proofs/RenderProofs.vo
+Properties/C12.vio: Properties/C12.v Compiler/Compile.vio Runtime/Render.vio Proofs/RenderProofs.vio
+Properties/C12.vos Properties/C12.vok Properties/C12.required_vos: Properties/C12.v Compiler/Compile.vos Runtime/Render.vos Proofs/RenderProofs.vos
 Properties/C13.vo Properties/C13.glob Properties/C13.v.beautified Properties/C13.required_vo: Properties/C13.v Runtime/Pool.vo Proofs/RuntimeProofs.vo
 Properties/C13.vio: Properties/C13.v Runtime/Pool.vio Proofs/RuntimeProofs.vio
 Properties/C13.vos Properties/C13.vok Properties/C13.required_vos: Properties/C13.v Runtime/Pool.vos Proofs/RuntimeProofs.vos
@@ -136,6 +136,12 @@ Runtime/Children.vos Runtime/Children.vok Runtime/Children.required_vos: Runtime
 Runtime/Pool.vo Runtime/Pool.glob Runtime/Pool.v.beautified Runtime/Pool.required_vo: Runtime/Pool.v Base/Regex.vo
 Runtime/Pool.vio: Runtime/Pool.v Base/Regex.vio
 Runtime/Pool.vos Runtime/Pool.vok Runtime/Pool.required_vos: Runtime/Pool.v Base/Regex.vos
+Runtime/Render.vo Runtime/Render.glob Runtime/Render.v.beautified Runtime/Render.required_vo: Runtime/Render.v Base/Regex.vo
+Runtime/Render.vio: Runtime/Render.v Base/Regex.vio
+Runtime/Render.vos Runtime/Render.vok Runtime/Render.required_vos: Runtime/Render.v Base/Regex.vos
+Proofs/RenderProofs.vo Proofs/RenderProofs.glob Proofs/RenderProofs.v.beautified Proofs/RenderProofs.required_vo: Proofs/RenderProofs.v Runtime/Render.vo
+Proofs/RenderProofs.vio: Proofs/RenderProofs.v Runtime/Render.vio
+Proofs/RenderProofs.vos Proofs/RenderProofs.vok Proofs/RenderProofs.required_vos: Proofs/RenderProofs.v Runtime/Render.vos
 Proofs/RuntimeProofs.vo Proofs/RuntimeProofs.glob Proofs/RuntimeProofs.v.beautified Proofs/RuntimeProofs.required_vo: Proofs/RuntimeProofs.v Runtime/Children.vo Runtime/Pool.vo
 Proofs/RuntimeProofs.vio: Proofs/RuntimeProofs.v Runtime/Children.vio Runtime/Pool.vio
 Proofs/RuntimeProofs.vos Proofs/RuntimeProofs.vok Proofs/RuntimeProofs.required_vos: Proofs/RuntimeProofs.v Runtime/Children.vos Runtime/Pool.vos
